@@ -1,6 +1,8 @@
 // ---- shims that need the extracted types (Popen, PopenConfig, Redirection ...) -- trusted; contracts restated from the units
 // that prove them (spawn: create; pstate: wait / drop)
-pub open spec fn given(r: Redirection, parent: Option<File>) -> Given {
+// what a stage is "given" for a stream, as a function of the Redirection passed to create and the parent end create hands back.
+// Closed: the proofs only need the three facts below, not a case split over all variants at every use.
+pub closed spec fn given(r: Redirection, parent: Option<File>) -> Given {
     match r {
         Redirection::None => Given::Inherit,
         Redirection::Pipe => Given::NewPipe(match parent { Some(f) => f.obj@, None => 0 }),
@@ -9,6 +11,19 @@ pub open spec fn given(r: Redirection, parent: Option<File>) -> Given {
         Redirection::RcFile(f) => Given::Obj(f.obj@),
     }
 }
+pub broadcast proof fn lemma_given_pipe(r: Redirection, f: File)
+    requires r is Pipe
+    ensures #[trigger] given(r, Some(f)) == Given::NewPipe(f.obj@)
+{ }
+pub broadcast proof fn lemma_given_file(r: Redirection, parent: Option<File>)
+    requires r is File || r is RcFile
+    ensures #[trigger] given(r, parent) == Given::Obj(if r is File { r->File_0.obj@ } else { r->RcFile_0.obj@ })
+{ }
+pub broadcast proof fn lemma_given_none(r: Redirection, parent: Option<File>)
+    requires r is None
+    ensures #[trigger] given(r, parent) == Given::Inherit
+{ }
+pub broadcast group given_lemmas { lemma_given_pipe, lemma_given_file, lemma_given_none }
 pub open spec fn bytes_of(v: Seq<OsString>) -> Seq<Seq<u8>> { Seq::new(v.len(), |i: int| v[i].b@) }
 pub open spec fn stage_of(argv: Seq<OsString>, c: PopenConfig, p: Popen) -> Stage {
     Stage { argv: bytes_of(argv), stdin: given(c.stdin, p.stdin), stdout: given(c.stdout, p.stdout), stderr: given(c.stderr, p.stderr), detached: c.detached, reaped: false }
@@ -69,6 +84,16 @@ impl Popen {
             r.out_piped@ == old(self).stdout.is_some(), r.err_piped@ == old(self).stderr.is_some(),
     { unimplemented!() }
 }
+impl PopenConfig {
+    // PopenConfig::current_env(): std::env::vars_os().collect()
+    #[verifier::external_body]
+    pub fn current_env() -> (r: Vec<(OsString, OsString)>) ensures r@ == parent_env() { unimplemented!() }
+}
+// R6: `envvec.retain(|(k, _v)| k != key)` (a closure with a destructuring parameter): keeps, in order, the entries whose name differs
+#[verifier::external_body]
+pub fn env_retain_ne(v: &mut Vec<(OsString, OsString)>, key: &OsStr)
+    ensures final(v)@ == old(v)@.filter(|kv: (OsString, OsString)| kv.0.b@ != key.b@)
+{ unimplemented!() }
 pub struct Communicator { pub out_piped: Ghost<bool>, pub err_piped: Ghost<bool> }
 pub struct CommunicateError { pub error: io::Error }
 impl Communicator {
